@@ -1,6 +1,7 @@
 package harness
 
 import (
+	"hash/fnv"
 	"bytes"
 	"context"
 	"encoding/json"
@@ -211,6 +212,7 @@ type World struct {
 	c15Submitted bool
 	pendingJump  time.Duration
 	wsConns      []*wsConn
+	earlySeen    map[string]int
 	outcomeQ     []outcomeRec
 	onHookEvent  func(name string, kv ...any)
 	projCache    map[string][]string
@@ -266,14 +268,30 @@ func (w *World) harnessFail(format string, a ...any) {
 
 type simTransport struct{}
 
+// the random tail of a request id ("blocks-29-1-9f3a..."), possibly cut off
+var earlyIDRE = regexp.MustCompile(`-[0-9a-f]{8,}("|$)`)
+
 func (simTransport) RoundTrip(req *http.Request) (*http.Response, error) {
-	if w := theWorld; w != nil && !w.free && w.plan != nil && w.plan.Faults.EarlyRefuseEvery > 0 && !w.healed && directRT == nil {
-		// connection refused before a byte of the request was read (the
-		// body is closed unread, as a real transport does on a dial error)
-		if n := w.httpEarly.Add(1); n%int64(w.plan.Faults.EarlyRefuseEvery) == 0 {
-			if req.Body != nil {
-				req.Body.Close()
-			}
+	var head []byte
+	if w := theWorld; w != nil && !w.free && w.plan != nil && w.plan.Faults.EarlyRefuseEvery > 0 && !w.healed && directRT == nil && req.Body != nil {
+		// connection refused while the request is still being written: the
+		// body is closed with its writer blocked, as a real transport does on a
+		// dial error. Which requests are refused is a function of what they
+		// ask (the first bytes, without the random request id) and of how often
+		// the same thing has been asked before - never of the order in which
+		// concurrent callers arrive here.
+		buf := make([]byte, 64)
+		n, _ := io.ReadFull(req.Body, buf)
+		head = buf[:n]
+		what := string(earlyIDRE.ReplaceAll(head, nil))
+		w.mu.Lock()
+		w.earlySeen[what]++
+		k := w.earlySeen[what]
+		w.mu.Unlock()
+		hsh := fnv.New64a()
+		fmt.Fprintf(hsh, "%s#%d", what, k)
+		if hsh.Sum64()%uint64(w.plan.Faults.EarlyRefuseEvery) == 0 {
+			req.Body.Close()
 			w.stat("fault_http_refused_before_body", 1)
 			w.stat("fault_total", 1)
 			return nil, fmt.Errorf("dial tcp %s: connect: connection refused", req.URL.Hostname())
@@ -283,6 +301,7 @@ func (simTransport) RoundTrip(req *http.Request) (*http.Response, error) {
 	if req.Body != nil {
 		body, _ = io.ReadAll(req.Body)
 		req.Body.Close()
+		body = append(head, body...)
 	}
 	if directRT != nil {
 		return directRoundTrip(req, body)
@@ -814,7 +833,7 @@ func outcomeName(err error) string {
 func Run(t *testing.T, plan *Plan, st *core.Stream, extra Extra, keepLog bool) (res *Result) {
 	installHooks()
 	res = &Result{Prop: plan.Prop, Seed: plan.Seed, Stats: map[string]int{}, PlanDigest: plan.Digest()}
-	w := &World{t: t, plan: plan, st: st, srcs: map[string]*srcState{}, stats: res.Stats, projCache: map[string][]string{}, extra: extra, scriptFired: map[int]bool{}}
+	w := &World{t: t, plan: plan, st: st, srcs: map[string]*srcState{}, earlySeen: map[string]int{}, stats: res.Stats, projCache: map[string][]string{}, extra: extra, scriptFired: map[int]bool{}}
 	// The bubble runs on a helper goroutine: when the race detector reported
 	// something during the bubble, synctest.Test ends with t.FailNow(), which
 	// must not take the worker's goroutine (and the remaining runs) with it.
